@@ -1181,8 +1181,11 @@ impl<T: Transport, Env: UtpEnvironment> VirtualSocket<T, Env> {
 
             (Established, ST_FIN) => {
                 trace!("state: established -> last-ack");
-                let our_fin = self.seq_nr;
-                self.seq_nr += 1;
+                // Our FIN goes after everything that is already segmented, sent or not: unsent
+                // segments were numbered already, the FIN must not reuse their numbers.
+                let our_fin =
+                    self.user_tx_segments.snd_una() + self.user_tx_segments.total_len_packets() as u16;
+                self.seq_nr = our_fin + 1;
                 self.state = LastAck {
                     our_fin,
                     remote_fin: hdr.seq_nr,
